@@ -260,6 +260,41 @@ def file_precision(arr, decimals):
     return out
 
 
+def save_matrix_text(rng, path, M):
+    """a numeric matrix as a whitespace-separated text file, in one of the layouts people write:
+    numpy's default, column-aligned, tab / double-space separated, CRLF, trailing empty line.
+    All layouts carry the same float64 values (18 significant digits). Returns the layout name."""
+    layouts = ["default", "aligned", "tabs", "double space", "crlf", "blank last line"]
+    lay = layouts[rng.integers(len(layouts))]
+    M = np.asarray(M, dtype=float)
+    if lay == "default":
+        np.savetxt(path, M)
+    elif lay == "aligned":
+        np.savetxt(path, M, fmt="%26.18e")
+    elif lay == "tabs":
+        np.savetxt(path, M, delimiter="\t")
+    elif lay == "double space":
+        np.savetxt(path, M, delimiter="  ")
+    elif lay == "crlf":
+        np.savetxt(path, M, newline="\r\n")
+    else:
+        np.savetxt(path, M)
+        with open(path, "a") as f:
+            f.write("\n")
+    return lay
+
+
+def spell_int(rng, n):
+    """an integer argument as callers hold it: Python int or a numpy integer scalar
+    (result of rng.integers, len(array) arithmetic, an element of an index array)"""
+    return [int(n), np.int64(n), np.int32(n), int(n)][rng.integers(4)]
+
+
+def spell_float(rng, x):
+    """a float argument as Python float or numpy float64 scalar (same value)"""
+    return [float(x), np.float64(x)][rng.integers(2)]
+
+
 def relayout(rng, M, readonly_ok=True):
     """
     The same array values in another memory layout, as callers may hand them over: C order,
